@@ -81,7 +81,7 @@ pub fn std_acts(n_periph: u8, malformed: &[u8], user: bool) -> Vec<Act> {
 
 fn base_cfg(periphs: Vec<PeriphCfg>, mon: Mon, acts: Vec<Act>) -> W4Cfg {
     let n = periphs.len();
-    W4Cfg { rig: RigCfg::basic(periphs), slave_dev: vec![0; n], gc_every_visit: false, high_prio: false, acts, mon, dev_budget: 255 }
+    W4Cfg { rig: RigCfg::basic(periphs), slave_dev: vec![0; n], gc_every_visit: false, high_prio: false, acts, mon, dev_budget: 255, late_add: false }
 }
 
 fn finish_mc(t: Totals, rule: &str, bounds: Value, witnesses: Vec<&'static str>, extra_evals: u64) -> ! {
@@ -106,7 +106,7 @@ fn finish_mc(t: Totals, rule: &str, bounds: Value, witnesses: Vec<&'static str>,
     finish(ev)
 }
 
-const ALL_MALFORMED: [u8; 20] = [0, 1, 2, 3, 4, 5, 6, 7, 8, 9, 10, 11, 12, 13, 14, 15, 16, 17, 18, 19];
+const ALL_MALFORMED: [u8; 23] = [0, 1, 2, 3, 4, 5, 6, 7, 8, 9, 10, 11, 12, 13, 14, 15, 16, 17, 18, 19, 20, 21, 22];
 
 // ------------------------------------------------------------------------------------------------
 // C03
@@ -273,12 +273,18 @@ pub fn run_c04(tier: Tier) -> ! {
             plans.push(Plan { label: "3p".into(), cfg, depth: 18, max_states: 3_000_000, secs: tier.pick(8.0, 240.0) });
         }
     }
-    let t = explore(plans, tier.pick(45.0, 600.0), &|_w| {});
+    let mut t = explore(plans, tier.pick(45.0, 600.0), &|_w| {});
+    // drive mode (b): under a real FdlActiveStation, with stray / foreign telegrams as answers
+    let (runs, reqs) = crate::props::w2props::c04_images_under_fdl(tier);
+    t.states += runs;
+    t.transitions += reqs;
+    t.validated += runs;
+    t.per_world.push(json!({"world": "drive mode (b): DpMaster under a real FdlActiveStation, answer sequences with bounded deviations (foreign source/destination, request echo, token, garbage, truncated, SC, silence, RR, 244 bytes)", "executions": runs, "requests_answered": reqs}));
     finish_mc(
         t,
         "BFS over (real DpMaster, reference slave, process images) for all 49 (output, input) length pairs; transitions = answered / reply lost / user writes of 3 patterns / input changes / 14 catalogue replies (every response status, SC, length +-1, 244 bytes) / diagnostics; images compared before and after every callback",
         json!({"length_pairs": 49, "depth": tier.pick(8, 11), "two_peripherals_depth": tier.pick(10, 16)}),
-        vec!["c04_good_update", "c04_bad_reply_rejected", "c04_sc_update"],
+        vec!["c04_good_update", "c04_bad_reply_rejected", "c04_sc_update", "c04_under_fdl_data_exchange_reached"],
         0,
     )
 }
@@ -491,6 +497,17 @@ pub fn run_c14(tier: Tier) -> ! {
                     let mut acts = vec![Act::Answer, Act::ReqLost, Act::ReplyLost, Act::NoCallback, Act::PowerCycle, Act::Malformed(7), Act::Malformed(8), Act::Malformed(16), Act::LongPause];
                     for i in 0..n as u8 {
                         acts.push(Act::UserDiag(i));
+                    }
+                    // the last peripheral may also be added while the master is already running
+                    let late = n >= 1 && !gc && !hp;
+                    if late {
+                        let mut acts2 = acts.clone();
+                        acts2.push(Act::AddLate);
+                        let mut cfg2 = base_cfg(ps[..n].to_vec(), Mon::C14, acts2);
+                        cfg2.rig.fixed_slots = fixed;
+                        cfg2.late_add = true;
+                        cfg2.dev_budget = if n >= 2 { 3 } else { 255 };
+                        plans.push(Plan { label: format!("{n}p fixed={fixed:?} late-add"), cfg: cfg2, depth: tier.pick(8, 12), max_states: tier.pick(60_000, 1_000_000), secs: tier.pick(8.0, 240.0) });
                     }
                     let mut cfg = base_cfg(ps[..n].to_vec(), Mon::C14, acts);
                     cfg.rig.fixed_slots = fixed;
